@@ -335,6 +335,13 @@ def step (st : St) (line : String) : St × String :=
   | ["t35", p] => (st, t35 (bytesOfHex p))
   | ["t35"] => (st, t35 [])
   | "stream" :: ops => (st, stream ops)
+  | ["hdr", b] => let b := b.toNat!; (st, if b ≥ 128 then "err" else s!"ok {b / 32 % 4} {b % 32} back={b}")
+  | ["unittype", b] => let b := b.toNat!; (st, if b > 31 then "err" else s!"ok {b}")
+  | ["profile", b] => (st, b)
+  | ["level", f, l] => (st, s!"{l} " ++ (if l.toNat! = 11 ∧ f.toNat! / 16 % 2 = 1 then "1b" else "-"))
+  | ["flags", f] => let f := f.toNat!; (st, s!"{f} {f / 128 % 2}{f / 64 % 2}{f / 32 % 2}{f / 16 % 2}{f / 8 % 2}{f / 4 % 2} {f % 4}")
+  | ["spsid", v] => let v := v.toNat!; (st, if v > 31 then "err" else s!"ok {v}")
+  | ["ppsid", v] => let v := v.toNat!; (st, if v > 255 then "err" else s!"ok {v}")
   | _ => (st, "bad-op")
 
 end Driver
